@@ -199,7 +199,14 @@ def audit_file(path, rel, calls=()):
             elif kind == "call":
                 recv, opn, ords = "", "call." + data, []
             else:
-                recv, opn, ords = "", data, []
+                # a marker on a plain (non-atomic) shared access: the statement that follows the marker is the access
+                # it stands for; its text is part of the table, so that moving the access away from its marker is seen
+                k = txt.find(";", off)
+                e1, e2 = txt.find(";", k + 1), txt.find("}", k + 1)
+                end = min(x for x in (e1, e2, len(txt)) if x >= 0)
+                nxt = txt[k + 1:end + 1] if k >= 0 else ""
+                nxt = re.sub(r"#\[cfg\([^\]]*\)\]", "", nxt)
+                recv, opn, ords = "", data, ["next:" + re.sub(r"\s+", "", nxt)[:80]]
             key = (fn, recv, opn)
             o = counts.get(key, 0)
             counts[key] = o + 1
